@@ -40,6 +40,8 @@ const (
 	NKeys    = 24
 	NItems   = 64
 	NSubnets = 4
+	NGrow    = 64 // attestation data entries whose aggregate list keeps growing
+	GrowComm = 32 // committee size of those
 )
 
 type Blk struct {
@@ -63,14 +65,17 @@ type Env struct {
 	PS *pool.ProposerSlashingPool
 	SP *pool.SyncCommitteePool
 
-	Atts   []*phase0.Attestation
-	Comms  []common.CommitteeIndices
-	Indiv  []*phase0.Attestation
-	Exits  []*phase0.SignedVoluntaryExit
-	ASl    []*phase0.AttesterSlashing
-	PSl    []*phase0.ProposerSlashing
-	Msgs   []*altair.SyncCommitteeMessage
-	Contrs []*altair.SyncCommitteeContribution
+	Atts []*phase0.Attestation
+	// Grow[d][j]: aggregate for growth data d with participants {0, j+1} of GrowComms[d]
+	Grow      [][]*phase0.Attestation
+	GrowComms []common.CommitteeIndices
+	Comms     []common.CommitteeIndices
+	Indiv     []*phase0.Attestation
+	Exits     []*phase0.SignedVoluntaryExit
+	ASl       []*phase0.AttesterSlashing
+	PSl       []*phase0.ProposerSlashing
+	Msgs      []*altair.SyncCommitteeMessage
+	Contrs    []*altair.SyncCommitteeContribution
 }
 
 func rootOf(tag string, i int) (r common.Root) {
@@ -174,6 +179,21 @@ func NewEnv() *Env {
 		e.Msgs = append(e.Msgs, &altair.SyncCommitteeMessage{Slot: common.Slot(10 + i%3 - 1), BeaconBlockRoot: rootOf("sync", i%3), ValidatorIndex: common.ValidatorIndex(i)})
 		e.Contrs = append(e.Contrs, &altair.SyncCommitteeContribution{Slot: common.Slot(10 + i%3 - 1), BeaconBlockRoot: rootOf("sync", i%3),
 			SubcommitteeIndex: view.Uint64View(i % NSubnets), AggregationBits: altair.SyncCommitteeSubnetBits(make([]byte, 16))})
+	}
+	for d := 0; d < NGrow; d++ {
+		comm := make(common.CommitteeIndices, GrowComm)
+		for m := range comm {
+			comm[m] = common.ValidatorIndex(10000 + d*GrowComm + m)
+		}
+		data := phase0.AttestationData{Slot: common.Slot(80 + d%16), Index: common.CommitteeIndex(d / 16),
+			BeaconBlockRoot: rootOf("growblock", d), Source: common.Checkpoint{Epoch: 1}, Target: common.Checkpoint{Epoch: 2, Root: rootOf("target", 0)}}
+		var row []*phase0.Attestation
+		for j := 0; j < GrowComm-1; j++ {
+			jj := j
+			row = append(row, &phase0.Attestation{AggregationBits: bitlist(GrowComm, func(b int) bool { return b == 0 || b == jj+1 }), Data: data})
+		}
+		e.Grow = append(e.Grow, row)
+		e.GrowComms = append(e.GrowComms, comm)
 	}
 	return e
 }
@@ -343,13 +363,23 @@ var Ops = []Op{
 	// ---- pools
 	{"AttestationPool", "AddAttestation", func(e *Env, g, k int) string {
 		i := k % NItems
-		if g%2 == 0 {
+		switch g % 3 {
+		case 0: // a full aggregate for data i: always accepted
 			return errS(e.AP.AddAttestation(ctx, e.Atts[i], e.Comms[i]))
+		case 1: // an individual attestation
+			return errS(e.AP.AddAttestation(ctx, e.Indiv[i], e.Comms[i]))
 		}
-		return errS(e.AP.AddAttestation(ctx, e.Indiv[i], e.Comms[i]))
+		// an aggregate that EXTENDS existing data: same AttestationData, new participants {0, j+1} of a
+		// 64-member committee (the only branch of AddAttestation that grows MinAggregates.Aggregates)
+		d, j := k%NGrow, (k/NGrow)%(GrowComm-1)
+		return errS(e.AP.AddAttestation(ctx, e.Grow[d][j], e.GrowComms[d]))
 	}},
 	{"AttestationPool", "Search", func(e *Env, g, k int) string {
-		out := e.AP.Search(pool.WithSlot(common.Slot(64 + k%8)))
+		slot := common.Slot(64 + k%8)
+		if (g/2)%2 == 1 {
+			slot = common.Slot(80 + k%16) // the slots of the growing aggregates
+		}
+		out := e.AP.Search(pool.WithSlot(slot))
 		var ids []string
 		for _, a := range out {
 			ids = append(ids, fmt.Sprintf("%x", a.Data.BeaconBlockRoot[:4]))
